@@ -59,9 +59,13 @@ example : jitRepr (.Bool true) = some ⟨.I8, 1⟩ ∧ eval_Not true (.Bool true
 
 /-- `IntCmp`: `Eq`/`Ne` through the generated `PartialEq for IrValue`, the unsigned comparisons
     through `as_u64`, the signed ones through `as_i64`, against `icmp cc` with the generated
-    condition-code table.  `hty`: the verifier accepted the `icmp` (same operand types). -/
-theorem eval_IntCmp_agrees (dbg : Bool) (cmp : IntCmp) (l r : IrValue) (cl cr : CVal)
-    (hl : jitRepr l = some cl) (hr : jitRepr r = some cr) (hty : cl.ty = cr.ty) :
+    condition-code table.  `hty`, `hnf`: the verifier accepted the `icmp` (same operand types, of the
+    integer class).  `hnf` is not needed on the pinned tree (no arm of `PartialEq` completes on floats);
+    it is what keeps the statement true — and this theorem checking — when an IEEE float arm is added
+    to `PartialEq for IrValue` (`eq_ok_general`): `icmp` on floats never gets past the verifier. -/
+theorem eval_IntCmp_agrees [FloatOps] (dbg : Bool) (cmp : IntCmp) (l r : IrValue) (cl cr : CVal)
+    (hl : jitRepr l = some cl) (hr : jitRepr r = some cr) (hty : cl.ty = cr.ty)
+    (hnf : cl.ty.isFloat = false) :
     Agrees (eval_IntCmp dbg cmp l r) (cg_IntCmp dbg cmp cl cr) := by
   apply agrees_of_ok; intro v hv
   cases cmp <;> simp only [eval_IntCmp, Ev.ret, Res.bind_eq_ok_iff, Res.pure_eq, Res.ok.injEq] at hv
@@ -95,32 +99,39 @@ theorem eval_IntCmp_agrees (dbg : Bool) (cmp : IntCmp) (l r : IrValue) (cl cr : 
     simp [intCmpSpec, BitVec.slt, ← decide_not, Int.not_lt]
   case Eq =>
     obtain ⟨b, hb', rfl⟩ := hv
-    obtain ⟨ty, w, hw, hf, x, y, rx, ry, hxy⟩ := eq_ok hb'
-    rw [hl] at rx; rw [hr] at ry; simp only [Option.some.injEq] at rx ry; subst rx ry
     refine ⟨_, jitRepr_Bool _, ?_⟩
-    rw [cg_IntCmp_int _ _ _ hf hw, hxy]; rfl
+    cases eq_ok_general hb' with
+    | int ty w hw hf x y rx ry hxy =>
+      rw [hl] at rx; rw [hr] at ry; simp only [Option.some.injEq] at rx ry; subst rx ry
+      rw [cg_IntCmp_int _ _ _ hf hw, hxy]; rfl
+    | f32 x y rx ry hxy => subst rx; rw [jitRepr_F32] at hl; cases hl; simp [CTy.isFloat] at hnf
+    | f64 x y rx ry hxy => subst rx; rw [jitRepr_F64] at hl; cases hl; simp [CTy.isFloat] at hnf
   case Ne =>
     obtain ⟨b, ⟨b', hb', rfl⟩, rfl⟩ := hv
-    obtain ⟨ty, w, hw, hf, x, y, rx, ry, hxy⟩ := eq_ok hb'
-    rw [hl] at rx; rw [hr] at ry; simp only [Option.some.injEq] at rx ry; subst rx ry
     refine ⟨_, jitRepr_Bool _, ?_⟩
-    rw [cg_IntCmp_int _ _ _ hf hw, hxy]; rfl
+    cases eq_ok_general hb' with
+    | int ty w hw hf x y rx ry hxy =>
+      rw [hl] at rx; rw [hr] at ry; simp only [Option.some.injEq] at rx ry; subst rx ry
+      rw [cg_IntCmp_int _ _ _ hf hw, hxy]; rfl
+    | f32 x y rx ry hxy => subst rx; rw [jitRepr_F32] at hl; cases hl; simp [CTy.isFloat] at hnf
+    | f64 x y rx ry hxy => subst rx; rw [jitRepr_F64] at hl; cases hl; simp [CTy.isFloat] at hnf
 
 
 /-- non-vacuity: `-1i8 < 1i8` signed is true on both sides, and as unsigned bit patterns the
     evaluator refuses (`as_u64` on a signed tag panics). -/
-example : eval_IntCmp true .SLt (.I8 (.ofInt _ _ (-1))) (.I8 (.ofInt _ _ 1)) = .ok (.Bool true)
-    ∧ eval_IntCmp true .ULt (.I8 (.ofInt _ _ (-1))) (.I8 (.ofInt _ _ 1)) = .panic := by decide
+example [FloatOps] : eval_IntCmp true .SLt (.I8 (.ofInt _ _ (-1))) (.I8 (.ofInt _ _ 1)) = .ok (.Bool true)
+    ∧ eval_IntCmp true .ULt (.I8 (.ofInt _ _ (-1))) (.I8 (.ofInt _ _ 1)) = .panic := ⟨by rfl, by rfl⟩
 
 /-- the same-type hypothesis is necessary: on `1u8 < 2u16` the evaluator completes (it widens both
     to `u64`) while Cranelift's verifier rejects the `icmp`. -/
-theorem IntCmp_needs_same_type :
+theorem IntCmp_needs_same_type [FloatOps] :
     ¬ Agrees (eval_IntCmp false .ULt (.U8 (.ofInt _ _ 1)) (.U16 (.ofInt _ _ 2)))
         (cg_IntCmp false .ULt ⟨.I8, 1⟩ ⟨.I16, 2⟩)
     ∧ jitRepr (.U8 (.ofInt _ _ 1)) = some ⟨.I8, 1⟩ ∧ jitRepr (.U16 (.ofInt _ _ 2)) = some ⟨.I16, 2⟩ := by
   refine ⟨?_, by decide, by decide⟩
   rintro (h | ⟨v, c, _, _, h3⟩)
-  · exact absurd h (by decide)
+  · have h1 : eval_IntCmp false .ULt (.U8 (.ofInt _ _ 1)) (.U16 (.ofInt _ _ 2)) = .ok (.Bool true) := by rfl
+    rw [h1] at h; cases h
   · exact absurd h3 (by rw [cg_IntCmp_mixed _ _ _ _ (by decide)]; exact fun h => by cases h)
 
 /-! ### wrapping arithmetic -/
@@ -509,7 +520,7 @@ def ScalarInstr.jit (dbg : Bool) (signed : Bool) : ScalarInstr → CVal → CVal
 /-- what Cranelift's verifier checked for the two comparison instructions (the only arms where
     the evaluator accepts more than the verifier). -/
 def ScalarInstr.Verified : ScalarInstr → CVal → CVal → Prop
-  | .IntCmp _, l, r => l.ty = r.ty
+  | .IntCmp _, l, r => l.ty = r.ty ∧ l.ty.isFloat = false
   | .FloatCmp _, l, r => l.ty = r.ty ∧ l.ty.isFloat = true
   | _, _, _ => True
 
@@ -519,7 +530,7 @@ theorem eval_agrees_or_panics [FloatLaws] (dbg : Bool) (i : ScalarInstr) (l r : 
     (hl : jitRepr l = some cl) (hr : jitRepr r = some cr) (hv : i.Verified cl cr) :
     Agrees (i.eval dbg l r) (i.jit dbg (signedOf l) cl cr) := by
   cases i
-  case IntCmp cmp => exact eval_IntCmp_agrees dbg cmp l r cl cr hl hr hv
+  case IntCmp cmp => exact eval_IntCmp_agrees dbg cmp l r cl cr hl hr hv.1 hv.2
   case FloatCmp cmp => exact eval_FloatCmp_agrees dbg cmp l r cl cr hl hr hv.1 hv.2
   case Not => exact eval_Not_agrees dbg l cl hl
   case Negate => exact eval_Negate_agrees dbg l cl hl
@@ -531,12 +542,15 @@ theorem eval_agrees_or_panics [FloatLaws] (dbg : Bool) (i : ScalarInstr) (l r : 
   case Mod => exact eval_Mod_agrees dbg l r cl cr hl hr
 
 /-- non-vacuity: the hypotheses are satisfiable for every instruction (each `IrValue` has a JIT
-    representation; equal float operands are `Verified`), and an arm completes. -/
+    representation; equal integer operands are `Verified` for `IntCmp`, equal float operands for every
+    other instruction), and an arm completes. -/
 example (i : ScalarInstr) (x : F64) :
-    (∃ cl, jitRepr (.F64 x) = some cl ∧ i.Verified cl cl)
+    (∃ v cl, jitRepr v = some cl ∧ i.Verified cl cl)
     ∧ ScalarInstr.eval true .Add (.U8 (.ofInt _ _ 1)) (.U8 (.ofInt _ _ 2)) = .ok (.U8 (.ofInt _ _ 3)) := by
-  refine ⟨⟨_, jitRepr_F64 x, ?_⟩, by rfl⟩
-  cases i <;> simp [ScalarInstr.Verified, CTy.isFloat]
+  refine ⟨?_, by rfl⟩
+  cases i
+  case IntCmp cmp => exact ⟨.U8 (.ofInt _ _ 1), _, jitRepr_U8 _, rfl, rfl⟩
+  all_goals exact ⟨.F64 x, _, jitRepr_F64 x, by simp [ScalarInstr.Verified, CTy.isFloat]⟩
 
 end
 end RotoV.C20
